@@ -157,7 +157,21 @@ def gen_tables(repo):
     return ''.join(out)
 
 
+def gen_normpath(repo):
+    from strfun import StrFun
+    rel = 'clastic/route.py'
+    tree = parse(repo, rel)
+    fn = find_def(tree.body, 'normalize_path')
+    body = StrFun(['path'], ['is_branch']).function(fn)
+    return ''.join([HEADER % rel,
+                    'From Coq Require Import List String Ascii.\nImport ListNotations.\n',
+                    'From ClasticV Require Import Base.Strs.\nLocal Open Scope string_scope.\n\n',
+                    'Definition is_nil {X} (l : list X) : bool := match l with [] => true | _ => false end.\n\n',
+                    body])
+
+
 GENERATORS = {
+    'NormPathGen.v': gen_normpath,
     'Tables.v': gen_tables,
     'ReservoirGen.v': gen_reservoir,
 }
